@@ -34,6 +34,16 @@ def run_seed(sid, tier="quick", confirm=True, props=None, benign=False):
     pid = meta.get("property", sid.split("_")[0])
     scratch = tempfile.mkdtemp(prefix="eqsig_seed_%s_" % sid, dir="/tmp")
     res = {"seed": sid, "property": pid, "tier": tier, "at": time.strftime("%Y-%m-%d %H:%M:%S")}
+    prev = os.path.join(sdir, "result.json")
+    if not confirm and os.path.exists(prev):
+        # keep the confirmation (demo fails / passes, repository tests pass) recorded by an earlier full run
+        try:
+            old = json.load(open(prev))
+            for k in ("demo_passes_without_change", "demo_fails_with_change", "tests_pass_with_change", "tests_tail"):
+                if k in old:
+                    res[k] = old[k]
+        except ValueError:
+            pass
     try:
         rc, out = sh(["git", "-C", "/repo", "worktree", "list"])
         shutil.rmtree(scratch)
